@@ -87,7 +87,8 @@ INCOMPLETE_MORE = [[[[0, 1], [2], [3]], [[0], [1]], [[0, 1], [2]]],
                    [[[0, 1, 2]], [[0], [3]], [[1], [2], [0]]],
                    [[[2], [0, 1]], [[2], [0, 1], [3]], [[2]]],
                    [[[0], [1], [2]], [[1], [0], [2]], [[2], [1], [0], [3]]],
-                   [[[3], [1, 2], [0]], [[3], [1, 2], [0]], [[1], [3]]]]
+                   [[[3], [1, 2], [0]], [[3], [1, 2], [0]], [[1], [3]]],
+                   [[[0], [1]], [[2], [1]], [[3], [0]]]]          # top-2 lists: equal sizes, different elements
 
 
 # datasets that BECOME complete: built incomplete (element 4 in one ranking only, possibly an empty ranking), then given a past
